@@ -105,9 +105,11 @@ impl KindMap {
                 }
                 json!({"c": "inst", "ex": Value::Object(ex)})
             }
-            ItemKind::Type(t) => match self.deftypes.get(&t) {
-                Some(id) => json!({"c": "type", "id": id}),
-                None => json!({"c": "type", "id": format!("?{}", t.desc(types))}),
+            ItemKind::Type(t) => match (self.deftypes.get(&t), t) {
+                (Some(id), _) => json!({"c": "type", "id": id}),
+                // a type item that is not one of the definable types: described structurally
+                (None, Type::Value(v)) => json!({"c": "rtype", "desc": value_desc(types, v)}),
+                (None, _) => json!({"c": "type", "id": format!("?{}", t.desc(types))}),
             },
             ItemKind::Component(_) => json!({"c": "comp"}),
             ItemKind::Module(_) => json!({"c": "module"}),
@@ -119,6 +121,10 @@ impl KindMap {
 /// Normalises a spec-side kind term: TLC prints an empty function as `[]`.
 pub fn norm_kind(v: &Value) -> Value {
     match v {
+        // type items are written {"c":"type","desc":..} by the decoder
+        Value::Object(m) if m.get("c").and_then(|c| c.as_str()) == Some("rtype") => {
+            json!({"c": "type", "desc": m["desc"]})
+        }
         Value::Object(m) => {
             let mut out = Map::new();
             for (k, x) in m {
